@@ -1,13 +1,13 @@
 \* C47 leg A quick (safety): contents {p1 (plain), e1 (references the env var)}, config dir files {a,b}, watched dir
 \* file {w}, env values {v1,v2}; every history with <= 4 changes/failing applies and any number of successful applies.
-\* Leg B: all normal-form histories of <= 4 operations ending with an apply.
+\* Leg B: all normal-form histories of <= 3 operations ending with an apply.
 SPECIFICATION Spec
 CONSTANTS Contents = {"p1", "e1"}
           DirNames = {"a", "b"}
           WatNames = {"w"}
           EnvVals = {"v1", "v2"}
           Budget = 4
-          HistLen = 4
+          HistLen = 3
 INVARIANT OutputsFollowInputs
 PROPERTIES AppliesSatisfyProperty SummaryAgrees NoReloadOnceSynced
 CHECK_DEADLOCK FALSE
